@@ -271,6 +271,12 @@ class MemTransport(asyncio.Transport):
                 # real processes that die with unread data pending (C14 real-process tier under load)
                 self._loop.call_soon(self._lost, ConnectionResetError("Connection reset by peer (mem)"))
             return      # else: like the first TCP write after the peer has gone: accepted locally, never delivered
+        # the moment mosaik hands a step request to a remote simulator (its inputs were collected just before):
+        # recorded so that oracles need not equate it with the later moment the simulator receives the request
+        if self.name.endswith(":mosaik") and b'"step"' in bytes(data) and CTL is not None and CTL.mode != "off":
+            sid = getattr(getattr(self, "sim_obj", None), "sid", None)
+            if sid is not None:
+                CTL.trace.append(("dispatch", sid, "step"))
         self._peer_reader.feed_data(bytes(data))
 
     def _lost(self, exc):
@@ -326,6 +332,7 @@ async def start_mem(mosaik_config, sim_name, sim_config, mosaik_remote):
     (ra, wa, ta), (rb, wb, tb) = mem_pair(loop, sim_name)
     sim = make_sim(sim_config["mvfmem"])
     sim._mem_transport = tb
+    ta.sim_obj = sim
     ctl = CTL
 
     async def simside():
@@ -837,7 +844,10 @@ def run_case(case, keep_world=False):
         res.virtual_elapsed = ctl.clock - t_start
         res.loop_closed = loop.is_closed()
         if wopt.get("debug") and hasattr(world, "execution_graph"):
-            res.exec_nodes = sorted([n[0], list(n[1].tiers)] for n in world.execution_graph.nodes)
+            try:
+                res.exec_nodes = sorted([n[0], list(n[1].tiers)] for n in world.execution_graph.nodes)
+            except Exception:  # noqa   (another node format: the cross-check with the debug graph is skipped)
+                res.exec_nodes = None
         try:
             left = [t for t in asyncio.all_tasks(loop) if not t.done() and t not in ctl.sim_tasks]
             res.leftover_tasks = len(left)
